@@ -1022,9 +1022,7 @@ class Engine:
     def ev_Dict(self, e, st):
         d = {}
         for k, v in zip(e.keys, e.values):
-            kk = self.ev(k, st)
-            if is_z3(kk):
-                raise Unsupported("symbolic dict key")
+            kk = self.ev(k, st)          # z3 keys are compared structurally (ExprRef.__eq__/__hash__)
             d[kk] = self.ev(v, st)
         return PyDict(d)
 
@@ -1179,6 +1177,12 @@ class Engine:
                 self.oblige(st, "finite_nonzero_divisor", And(b.is_fin(), b.val != 0), "arith", node)
                 pos = b.val > 0
                 return Ext(If(pos, a.pinf, a.ninf), If(pos, a.ninf, a.pinf), a.val / b.val)
+            if isinstance(op, ast.Mult):
+                # inf * positive finite constant (the only shape that occurs: np.inf * 0.8)
+                for x, y in ((a, b), (b, a)):
+                    sy = z3.simplify(y.val) if is_z3(y.val) else None
+                    if z3.is_false(z3.simplify(y.pinf)) and z3.is_false(z3.simplify(y.ninf)) and sy is not None and z3.is_rational_value(sy) and sy.as_fraction() > 0:
+                        return Ext(x.pinf, x.ninf, x.val * y.val)
             raise Unsupported("extended-real operation")
         if all(isinstance(x, (int, float)) and not isinstance(x, bool) for x in (a, b)) or \
                 all(isinstance(x, (int, float, bool)) for x in (a, b)):
@@ -1409,9 +1413,12 @@ class Engine:
         for kw in e.keywords:
             if kw.arg is None:
                 v = self.ev(kw.value, st)
-                if not isinstance(v, PyDict):
+                if isinstance(v, PyDict):
+                    kwargs.update(v.d)
+                elif isinstance(v, Abstract):
+                    kwargs["**"] = v              # an opaque keyword bundle forwarded as a whole
+                else:
                     raise Unsupported("**kwargs of non-concrete dict")
-                kwargs.update(v.d)
             else:
                 kwargs[kw.arg] = self.ev(kw.value, st)
         return self.call(fv, args, kwargs, st, e)
